@@ -86,6 +86,11 @@ class Spec:
     reports: list[str] = field(default_factory=list)       # raw report definitions
     extra_header: str = ""
     tz: str = "UTC"
+    time_unit: int = 1   # symbolic pinned offsets (start/end parameters) are given in this many seconds (60 = minutes)
+
+    def tval(self, x: Val, vals: dict) -> Any:
+        """a pinned offset in seconds"""
+        return vals[x.name] * self.time_unit if isinstance(x, P) else x
 
     def task(self, path: str) -> Task:
         for t in self.tasks:
@@ -203,11 +208,11 @@ def render(spec: Spec, vals: Optional[dict] = None, defaults: Optional[dict] = N
             if t.scheduling:
                 out.append(f"{ind}  scheduling {t.scheduling}")
             if t.start is not None:
-                out.append(f"{ind}  start {fmt_date(spec, val(t.start, v))}")
+                out.append(f"{ind}  start {fmt_date(spec, spec.tval(t.start, v))}")
             for sid, s in t.scen_start.items():
-                out.append(f"{ind}  {sid}:start {fmt_date(spec, val(s, v))}")
+                out.append(f"{ind}  {sid}:start {fmt_date(spec, spec.tval(s, v))}")
             if t.end is not None:
-                out.append(f"{ind}  end {fmt_date(spec, val(t.end, v))}")
+                out.append(f"{ind}  end {fmt_date(spec, spec.tval(t.end, v))}")
             for d in t.deps:
                 ref = d.ref or rel_ref(spec, t, d.on)
                 opts = []
@@ -242,15 +247,15 @@ def inject(spec: Spec, project: Any, vals: dict, sc_names: Optional[list[str]] =
         if isinstance(t.prio, P):
             task[("priority", 0)] = vals[t.prio.name]
         if isinstance(t.start, P):
-            task[("start", 0)] = IntTime(vals[t.start.name])
+            task[("start", 0)] = IntTime(vals[t.start.name] * spec.time_unit)
         if isinstance(t.end, P):
-            task[("end", 0)] = IntTime(vals[t.end.name])
+            task[("end", 0)] = IntTime(vals[t.end.name] * spec.time_unit)
         for sid, e in t.scen_effort.items():
             if isinstance(e, P) and sc_names:
                 task[("effort", sc_names.index(sid))] = vals[e.name] / 3600.0
         for sid, s in t.scen_start.items():
             if isinstance(s, P) and sc_names:
-                task[("start", sc_names.index(sid))] = IntTime(vals[s.name])
+                task[("start", sc_names.index(sid))] = IntTime(vals[s.name] * spec.time_unit)
 
 
 GAP_SECONDS = {"min": 60, "h": 3600, "d": 86400, "w": 604800}
